@@ -323,6 +323,103 @@ func (e *Engine) intrinsic(st *State, fn *ssa.Function, args []Value, ci ssa.Val
 		st.store(args[0].(*Ptr), args[1])
 		e.finish(st, ci, nil, fd)
 		return true
+	case "sync/atomic.LoadPointer", "sync/atomic.LoadUintptr":
+		if !e.yield(st) {
+			return true
+		}
+		e.finish(st, ci, st.load(args[0].(*Ptr)), fd)
+		return true
+	case "sync/atomic.StorePointer", "sync/atomic.StoreUintptr":
+		if !e.yield(st) {
+			return true
+		}
+		st.store(args[0].(*Ptr), args[1])
+		e.finish(st, ci, nil, fd)
+		return true
+	case "sync/atomic.CompareAndSwapUint64", "sync/atomic.CompareAndSwapUint32", "sync/atomic.CompareAndSwapInt32", "sync/atomic.CompareAndSwapInt64", "sync/atomic.CompareAndSwapPointer":
+		if !e.yield(st) {
+			return true
+		}
+		p := args[0].(*Ptr)
+		cur := st.load(p)
+		if e.branch(st, eqValues(cur, args[1])) {
+			st.store(p, args[2])
+			e.finish(st, ci, Bool(true), fd)
+		} else {
+			e.finish(st, ci, Bool(false), fd)
+		}
+		return true
+	case "sync/atomic.SwapUint64", "sync/atomic.SwapUint32", "sync/atomic.SwapInt32", "sync/atomic.SwapInt64", "sync/atomic.SwapPointer":
+		if !e.yield(st) {
+			return true
+		}
+		p := args[0].(*Ptr)
+		old := st.load(p)
+		st.store(p, args[1])
+		e.finish(st, ci, old, fd)
+		return true
+	case "(*sync/atomic.Value).Store":
+		p := args[0].(*Ptr)
+		st.store(&Ptr{Obj: p.Obj, Path: appendPath(p.Path, 0)}, args[1])
+		e.finish(st, ci, nil, fd)
+		return true
+	case "(*sync/atomic.Value).Load":
+		p := args[0].(*Ptr)
+		e.finish(st, ci, st.load(&Ptr{Obj: p.Obj, Path: appendPath(p.Path, 0)}), fd)
+		return true
+	case "(*github.com/lni/goutils/syncutil.Stopper).RunWorker":
+		// background workers (Tan's compaction worker) are not started: what they do
+		// is asynchronous housekeeping outside every claim
+		e.finish(st, ci, nil, fd)
+		return true
+	case "(*github.com/lni/goutils/syncutil.Stopper).Stop", "(*github.com/lni/goutils/syncutil.Stopper).Close":
+		e.finish(st, ci, nil, fd)
+		return true
+	case "(*sync.Cond).Signal", "(*sync.Cond).Broadcast":
+		e.finish(st, ci, nil, fd)
+		return true
+	case "(*sync.Cond).Wait":
+		st.outcome = "DEADLOCK: sync.Cond.Wait (no other thread can signal)"
+		return true
+	case "(*sync.WaitGroup).Add":
+		p := args[0].(*Ptr)
+		k := lockKey(p) + "#wg"
+		d, _ := concreteInt(args[1])
+		st.lockv[k] += d
+		if st.lockv[k] < 0 {
+			e.startPanic(st, "sync: negative WaitGroup counter")
+			return true
+		}
+		e.finish(st, ci, nil, fd)
+		return true
+	case "(*sync.WaitGroup).Done":
+		p := args[0].(*Ptr)
+		k := lockKey(p) + "#wg"
+		st.lockv[k]--
+		if st.lockv[k] < 0 {
+			e.startPanic(st, "sync: negative WaitGroup counter")
+			return true
+		}
+		e.finish(st, ci, nil, fd)
+		return true
+	case "(*sync.WaitGroup).Wait":
+		p := args[0].(*Ptr)
+		if st.lockv[lockKey(p)+"#wg"] != 0 {
+			st.outcome = "DEADLOCK: WaitGroup.Wait with pending work (goroutines run to completion at the go statement)"
+			return true
+		}
+		e.finish(st, ci, nil, fd)
+		return true
+	case "(*sync.Once).Do":
+		p := args[0].(*Ptr)
+		k := lockKey(p) + "#once"
+		if st.lockv[k] != 0 {
+			e.finish(st, ci, nil, fd)
+			return true
+		}
+		st.lockv[k] = 1
+		e.invoke(st, args[1], nil, ci, fd)
+		return true
 	case "sync/atomic.AddUint64", "sync/atomic.AddUint32", "sync/atomic.AddInt32", "sync/atomic.AddInt64":
 		p := args[0].(*Ptr)
 		nv := Bin("bvadd", st.load(p).(*Term), args[1].(*Term))
@@ -384,6 +481,16 @@ func (e *Engine) intrinsic(st *State, fn *ssa.Function, args []Value, ci ssa.Val
 			e.finish(st, ci, newErr("<wrapped>", w), fd)
 		}
 		return true
+	case "github.com/cockroachdb/errors.As", "errors.As":
+		if a, _ := args[0].(*Iface); a == nil {
+			e.finish(st, ci, Bool(false), fd)
+			return true
+		}
+		if _, ok := args[0].(*Iface).V.(*ErrObj); ok {
+			e.finish(st, ci, Bool(false), fd)
+			return true
+		}
+		panic(unsupported("errors.As on a non-nil error value"))
 	case "github.com/cockroachdb/errors.Is", "errors.Is":
 		a, _ := args[0].(*Iface)
 		b, _ := args[1].(*Iface)
@@ -391,14 +498,34 @@ func (e *Engine) intrinsic(st *State, fn *ssa.Function, args []Value, ci ssa.Val
 		for a != nil && b != nil {
 			ea, ok1 := a.V.(*ErrObj)
 			eb, ok2 := b.V.(*ErrObj)
-			if !ok1 || !ok2 {
-				break
-			}
-			if ea.ID == eb.ID {
+			if ok1 && ok2 && ea.ID == eb.ID {
 				r = true
 				break
 			}
-			a, _ = ea.Wrap.(*Iface)
+			if !ok1 && !ok2 {
+				if t := eqValues(a, b); t.IsConst() && t.C == 1 {
+					r = true
+					break
+				}
+			}
+			if ok1 {
+				a, _ = ea.Wrap.(*Iface)
+				continue
+			}
+			// real error values: *fs.PathError and friends wrap through field Err
+			next := (*Iface)(nil)
+			if pt, ok := a.T.(*types.Pointer); ok {
+				if stt, ok := pt.Elem().Underlying().(*types.Struct); ok {
+					if p, _ := a.V.(*Ptr); p != nil {
+						for i := 0; i < stt.NumFields(); i++ {
+							if stt.Field(i).Name() == "Err" {
+								next, _ = st.load(&Ptr{Obj: p.Obj, Path: appendPath(p.Path, i)}).(*Iface)
+							}
+						}
+					}
+				}
+			}
+			a = next
 		}
 		e.finish(st, ci, Bool(r), fd)
 		return true
@@ -442,6 +569,19 @@ func (e *Engine) intrinsic(st *State, fn *ssa.Function, args []Value, ci ssa.Val
 			}
 		}
 		panic("sync.Pool.New not found")
+	case "github.com/cespare/xxhash/v2.Sum64":
+		// native for concrete input; otherwise an uninterpreted function of the
+		// bytes (no detection axiom: xxhash is not a CRC)
+		if b, ok := e.concreteBytes(st, args[0]); ok {
+			e.finish(st, ci, Const(64, xxh64(b)), fd)
+			return true
+		}
+		var ts []*Term
+		for _, v := range e.sliceElems(st, args[0].(*Slice)) {
+			ts = append(ts, v.(*Term))
+		}
+		e.finish(st, ci, UF(fmt.Sprintf("xxh64_%d", len(ts)), 64, ts...), fd)
+		return true
 	case "crypto/md5.New":
 		dt := fn.Pkg.Type("digest").Type()
 		id := st.alloc(zero(dt))
@@ -822,12 +962,31 @@ func (e *Engine) nativeFormat(st *State, which string, args []Value) string {
 		rest = args[0]
 	}
 	var goArgs []interface{}
+	verbs := formatVerbs(format)
 	if sl, ok := rest.(*Slice); ok && sl != nil && sl.Len > 0 {
-		for _, a := range e.sliceElems(st, sl) {
+		for ai, a := range e.sliceElems(st, sl) {
 			iv, _ := a.(*Iface)
 			if iv == nil {
 				goArgs = append(goArgs, nil)
 				continue
+			}
+			verb := byte('v')
+			if which == "Sprintf" && ai < len(verbs) {
+				verb = verbs[ai]
+			}
+			if _, isErr := iv.V.(*ErrObj); !isErr && iv.T != nil && (verb == 'v' || verb == 's' || verb == 'q') {
+				if sel := e.prog.MethodSets.MethodSet(iv.T).Lookup(nil, "String"); sel != nil {
+					if t, isT := iv.V.(*Term); isT && !t.IsConst() {
+						return "<fmt>"
+					}
+					if fn := e.prog.MethodValue(sel); fn != nil && fn.Blocks != nil && fn.Signature.Params().Len() == 0 {
+						if s, ok := e.callNested(st, fn, []Value{iv.V}).(string); ok {
+							goArgs = append(goArgs, s)
+							continue
+						}
+						return "<fmt>"
+					}
+				}
 			}
 			switch x := iv.V.(type) {
 			case string:
@@ -857,6 +1016,35 @@ func (e *Engine) nativeFormat(st *State, which string, args []Value) string {
 		return fmt.Sprintf(format, goArgs...)
 	}
 	return fmt.Sprint(goArgs...)
+}
+
+// formatVerbs returns the verb consuming each operand of a format string
+// (explicit argument indexes are not used by the code under test).
+func formatVerbs(f string) []byte {
+	var out []byte
+	for i := 0; i < len(f); i++ {
+		if f[i] != '%' {
+			continue
+		}
+		i++
+		for i < len(f) && strings.IndexByte("+-# 0123456789.", f[i]) >= 0 {
+			i++
+		}
+		if i >= len(f) {
+			break
+		}
+		if f[i] == '*' {
+			out = append(out, 'd')
+			i++
+			if i >= len(f) {
+				break
+			}
+		}
+		if f[i] != '%' {
+			out = append(out, f[i])
+		}
+	}
+	return out
 }
 
 // nativeStrings evaluates pure string / path helpers natively (strings are
